@@ -394,6 +394,16 @@ type act struct {
 	Qsize int    `json:"qsize"`
 }
 
+// atGate returns the lowest call whose callee is parked on its gate (0: none).
+func (wd *world) atGate() int {
+	for i := 1; i <= maxCalls; i++ {
+		if atomic.LoadInt32(&wd.calls[i].running) == 1 {
+			return i
+		}
+	}
+	return 0
+}
+
 func (wd *world) applicable(a act) bool {
 	switch a.Op {
 	case "run":
@@ -405,7 +415,10 @@ func (wd *world) applicable(a act) bool {
 		return a.By >= 1 && a.By <= maxCalls && atomic.LoadInt32(&wd.calls[a.By].running) == 1
 	case "inv":
 		return a.C >= 1 && a.C <= maxCalls && wd.calls[a.C].status == "idle"
-	case "end":
+	case "end": // C = 0: whichever call is running
+		if a.C == 0 {
+			return wd.atGate() != 0
+		}
 		return a.C >= 1 && a.C <= maxCalls && atomic.LoadInt32(&wd.calls[a.C].running) == 1
 	case "cancel":
 		return a.C >= 1 && a.C <= maxCalls && wd.calls[a.C].status != "idle" && !wd.calls[a.C].ctx.ended()
@@ -431,6 +444,9 @@ func (wd *world) step(a act) {
 		c.status = "parked"
 		wd.x.Issue(c.id, func() interface{} { return wd.submit(c) })
 	case "end":
+		if a.C == 0 {
+			a.C = wd.atGate()
+		}
 		atomic.StoreInt32(&wd.calls[a.C].ended, 1)
 		wd.calls[a.C].gate <- "end"
 	case "cancel":
@@ -547,7 +563,7 @@ func randPlan(rng *rand.Rand, nl, n int) []act {
 			out = append(out, act{Op: "inv", C: next, H: pool[rng.Intn(len(pool))], Fail: rng.Intn(3) == 0, Pre: rng.Intn(8) == 0})
 			next++
 		case x < 70:
-			out = append(out, act{Op: "end", C: rng.Intn(maxCalls) + 1})
+			out = append(out, act{Op: "end", C: rng.Intn(maxCalls+1) * rng.Intn(2)}) // a given call or any
 		case x < 85:
 			out = append(out, act{Op: "cancel", C: rng.Intn(maxCalls) + 1})
 		case x < 90:
@@ -558,6 +574,15 @@ func randPlan(rng *rand.Rand, nl, n int) []act {
 				by = rng.Intn(maxCalls) + 1 // the callee of that call, if it is running then
 			}
 			out = append(out, act{Op: "stopi", By: by})
+			if rng.Intn(2) == 0 { // submissions right behind the shutdown, then the running calls return
+				for n := 1 + rng.Intn(3); n > 0 && next <= maxCalls; n-- {
+					out = append(out, act{Op: "inv", C: next, H: pool[rng.Intn(len(pool))]})
+					next++
+				}
+				for n := 1 + rng.Intn(3); n > 0; n-- {
+					out = append(out, act{Op: "end"})
+				}
+			}
 		default:
 			if next <= maxCalls { // burst: fill a lane
 				h := pool[rng.Intn(len(pool))]
